@@ -46,7 +46,7 @@ class Clock:
         pass
 
 
-def _turn(budgets, quantum, step):
+def _turn(budgets, quantum, step, slices=1):
     W.reset_globals()
     cfg = W.make_cfg({"t1": {"decay": {"mode": "exp_floor", "rate": 0.6, "floor": 0.05}}, "t4": {"snapshot_every_n_turns": 1000},
                       "scheduler": {"enabled": True, "quantum_ms": 20, "budgets": {"t1_pops": 4, "t1_iters": 4, "t2_k": 4, "t3_ops": 3, "wall_ms": 200}}}, memo="c17w")
@@ -63,12 +63,16 @@ def _turn(budgets, quantum, step):
     clk = Clock(step)
     saved = (OC.time, AP.time, S.time)
     OC.time = AP.time = S.time = clk
+    out = []
     try:
-        res, spy = W.run_turn(ctx, state, "alpha beta")
+        for _ in range(slices):
+            # a re-scheduled agent runs the same turn again on the same state (the turn-level T2 cache may now hit)
+            res, spy = W.run_turn(ctx, state, "alpha beta")
+            out.append((res, spy))
     finally:
         OC.time, AP.time, S.time = saved
         W.reset_globals()
-    return res, spy
+    return out[0] if slices == 1 else out
 
 
 def _ref_reason(budgets, quantum, consumed):
@@ -150,12 +154,12 @@ _S = ("TurnSpy log/snapshot capture", "orchestrator.core.time / apply.time / sna
 
 
 @H.ob(model="none", quick=400, thorough=900, per_path=200, targets=_T, stubs=_S,
-      bounds="one real turn on world W3/M3 with scheduler.enabled; stage budgets t1_pops in [1,8], t2_k in [1,4], t3_ops in [1,4] symbolic ints (t1_iters absent), wall_ms absent, quantum_ms symbolic int in [0, 10^7]; perf-counter speed by index over 3",
+      bounds="one real turn on world W3/M3 with scheduler.enabled; stage budgets t1_pops in [0,8], t2_k in [0,4], t3_ops in [0,4] symbolic ints (0 is a legal budget) (t1_iters absent), wall_ms absent, quantum_ms symbolic int in [0, 10^7]; perf-counter speed by index over 3",
       split={"si": [0, 1, 2]},
       note="C17.e stage budgets: pops/k_used/plan ops never exceed their slice budget; the turn yields at most once, only at a stage boundary (every stage before it logged exactly once, nothing of a later stage, no apply), the reason equals the documented precedence applied to the consumed counters reported at that boundary, and a turn that reaches a stage budget exactly does yield")
 def turn_budgets(pops: int, k: int, ops: int, quantum: int, si: int) -> bool:
     """
-    pre: 1 <= pops <= 8 and 1 <= k <= 4 and 1 <= ops <= 4 and 0 <= quantum <= 10000000 and 0 <= si <= 2
+    pre: 0 <= pops <= 8 and 0 <= k <= 4 and 0 <= ops <= 4 and 0 <= quantum <= 10000000 and 0 <= si <= 2
     post: _
     """
     budgets = {"t1_pops": pops, "t2_k": k, "t3_ops": ops}
@@ -168,12 +172,12 @@ def turn_budgets(pops: int, k: int, ops: int, quantum: int, si: int) -> bool:
 
 
 @H.ob(model="none", quick=400, thorough=900, per_path=200, targets=_T, stubs=_S,
-      bounds="one real turn on world W3/M3 with scheduler.enabled; wall_ms and quantum_ms symbolic ints in [0, 10^7]; t1_iters symbolic in [1,4]; other stage budgets absent; perf-counter speed by index over 3",
+      bounds="one real turn on world W3/M3 with scheduler.enabled; wall_ms and quantum_ms symbolic ints in [0, 10^7]; t1_iters symbolic in [0,4]; other stage budgets absent; perf-counter speed by index over 3",
       split={"si": [0, 1, 2]},
       note="C17.e clock budgets: wall-clock budget beats stage budget beats quantum at whichever boundary fires first; iteration budget clamps T1 layers")
 def turn_clock(wall: int, quantum: int, iters: int, si: int) -> bool:
     """
-    pre: 0 <= wall <= 10000000 and 0 <= quantum <= 10000000 and 1 <= iters <= 4 and 0 <= si <= 2
+    pre: 0 <= wall <= 10000000 and 0 <= quantum <= 10000000 and 0 <= iters <= 4 and 0 <= si <= 2
     post: _
     """
     budgets = {"wall_ms": wall, "t1_iters": iters}
@@ -183,3 +187,28 @@ def turn_clock(wall: int, quantum: int, iters: int, si: int) -> bool:
     except Exception:
         return False
     return H.verdict(_check(res, spy, budgets, quantum, step))
+
+
+@H.ob(model="none", quick=400, thorough=900, per_path=200, targets=_T, stubs=_S,
+      bounds="two consecutive slices of the same turn (same agent, text, now) on one state, so that the second may be served from the turn-level retrieval cache; t2_k in [0,4] and quantum_ms in [0,10^7] symbolic; other budgets absent; perf-counter speed by index over 3",
+      split={"si": [0, 1, 2]},
+      note="C17.e re-scheduled slices: the budget clamp, the boundary-only yield and the reason precedence hold on the second slice exactly as on the first (cached stage results consume their budget too)")
+def turn_rescheduled(k: int, quantum: int, si: int) -> bool:
+    """
+    pre: 0 <= k <= 4 and 0 <= quantum <= 10000000 and 0 <= si <= 2
+    post: _
+    """
+    budgets = {"t2_k": k}
+    step = pick(STEPS, si)
+    try:
+        runs = _turn(budgets, quantum, step, slices=2)
+    except Exception:
+        return False
+    ok = True
+    for res, spy in runs:
+        ok = ok and _check(res, spy, budgets, quantum, step)
+    # the slices see the same state and inputs: same boundary, same reason
+    e0, e1 = runs[0][1].by_stream("scheduler.jsonl"), runs[1][1].by_stream("scheduler.jsonl")
+    if step == 0.0:
+        ok = ok and [(e.get("stage_end"), e.get("reason")) for e in e0] == [(e.get("stage_end"), e.get("reason")) for e in e1]
+    return H.verdict(ok)
